@@ -174,8 +174,24 @@ def dropped_coroutines(prog: Program, funcs) -> List[Tuple[str, ast.AST, str]]:
     """[(function, call node, callee)]: an expression statement that calls a coroutine function of the package without awaiting it (and without
     handing it to anything): the coroutine object is created and thrown away, the call never runs.  `self.authenticate()` for
     `await self.authenticate()` is the typical slip - everything the call was meant to do silently does not happen."""
-    from .helpers import resolve_call, with_helpers
+    from .helpers import resolve_call as _resolve_call, with_helpers
     out, seen = [], set()
+
+    def resolve_call(prog, f, call):
+        t = _resolve_call(prog, f, call)
+        fn_ = call.func
+        if t is None and isinstance(fn_, ast.Attribute) and isinstance(fn_.value, ast.Attribute) and isinstance(fn_.value.value, ast.Name) and f.cls is not None \
+                and f.params and fn_.value.value.id == f.params[0] and f.kind in ("method", "property", "setter"):
+            # self.<attr>.<method>(): through the classes every store of the attribute constructs (binding table)
+            from .bindings import attr_types
+            try:
+                owners = attr_types(prog, f.cls, fn_.value.attr)
+            except Exception:
+                return None
+            ms = [prog.lookup_method(prog.classes[q], fn_.attr) for q in owners if q in prog.classes]
+            if ms and all(m is not None and getattr(m, "is_async", False) for m in ms):
+                return ms[0]
+        return t
     for f0 in funcs:
         for f in with_helpers(prog, f0):
             if f.qual in seen:
@@ -186,6 +202,32 @@ def dropped_coroutines(prog: Program, funcs) -> List[Tuple[str, ast.AST, str]]:
                     t = resolve_call(prog, f, n.value)
                     if t is not None and getattr(t, "is_async", False) and not any(isinstance(y, (ast.Yield, ast.YieldFrom)) for y in ast.walk(t.node)):
                         out.append((f.qual, n, t.qual))
+            # `x = coro()` (no await) with x bound once and then used as the result (x.attr / x[i] / iteration / arithmetic / comparison):
+            # the value is the coroutine object, the call never ran
+            binds = {}
+            for n in ast.walk(f.node):
+                for tg in (n.targets if isinstance(n, ast.Assign) else [n.target] if isinstance(n, (ast.AnnAssign, ast.AugAssign, ast.For, ast.AsyncFor, ast.NamedExpr)) else
+                           [i.optional_vars for i in n.items if i.optional_vars is not None] if isinstance(n, (ast.With, ast.AsyncWith)) else
+                           [ast.Name(id=n.name)] if isinstance(n, ast.ExceptHandler) and n.name else []):
+                    for nm in ast.walk(tg):
+                        if isinstance(nm, ast.Name):
+                            binds.setdefault(nm.id, []).append(n)
+            params = {a.arg for a in ast.walk(f.node.args) if isinstance(a, ast.arg)}
+            for name, sites in binds.items():
+                n = sites[0]
+                if len(sites) != 1 or name in params or not isinstance(n, ast.Assign) or len(n.targets) != 1 or not isinstance(n.targets[0], ast.Name) \
+                        or not isinstance(n.value, ast.Call):
+                    continue
+                t = resolve_call(prog, f, n.value)
+                if t is None or not getattr(t, "is_async", False) or any(isinstance(y, (ast.Yield, ast.YieldFrom)) for y in ast.walk(t.node)):
+                    continue
+                par = {c: p_ for p_ in ast.walk(f.node) for c in ast.iter_child_nodes(p_)}
+                uses = [u for u in ast.walk(f.node) if isinstance(u, ast.Name) and u.id == name and isinstance(u.ctx, ast.Load)]
+                as_value = [u for u in uses if (isinstance(par.get(u), ast.Attribute) and par[u].attr not in ("close", "send", "throw", "cr_frame", "cr_running", "cr_await", "cr_code"))
+                            or (isinstance(par.get(u), ast.Subscript) and par[u].value is u) or (isinstance(par.get(u), (ast.For, ast.comprehension)) and par[u].iter is u)
+                            or isinstance(par.get(u), (ast.BinOp, ast.Compare))]
+                if as_value:          # (bound once: whatever else is done with it, these uses see the coroutine object)
+                    out.append((f.qual, n, t.qual))
     return out
 
 
